@@ -10,8 +10,10 @@ static std::vector<std::vector<Ev>> trace(const Case &c, int pattern, std::vecto
     h.apply_global(w);
     int ifi = w.add_if(h.ifcfg());
     Shadow sh;
+    OtherIf oif;
     std::vector<std::vector<Ev>> out;
     for (auto &op : c.ops) {
+        if (op.kind == K_OTHERIF) { oif.step(w, h, op); out.push_back({}); if (frames_out) frames_out->push_back({}); continue; }   // traffic on another interface of the host: nothing may show here
         if (op.kind == K_ADVANCE) { vp_set_now_ms(vp_now_ms() + (uint64_t)op.arg(0)); out.push_back({}); if (frames_out) frames_out->push_back({}); continue; }
         if (op.kind == K_PBURST) {   // flood of pairwise-distinct probes addressed to this station, delivered natively (not expanded into steps)
             std::vector<Ev> all;
@@ -104,7 +106,7 @@ int main(int argc, char **argv) {
               "and the whole history is run twice with fresh allocations filled 0xA5 / 0x5A (byte-identical traces). "
               "non-trivial = >= 3 transmitted frames of >= 2 different opcodes; distinct = digest of the case";
     HistWeights w;
-    w.raw = 0; w.shell = 3; w.commands_from_active_only = false; w.pburst = 1;
+    w.raw = 0; w.shell = 3; w.commands_from_active_only = false; w.pburst = 1; w.otherif = 1;
     // mix: history ops + raw frames from the template/mutation generator
     auto gen = rc::gen::exec([w] {
         HCfg h = *hg::cfg_gen();
